@@ -24,7 +24,7 @@ func c37Message(rng *rand.Rand) string {
 	for i := 0; i < n; i++ {
 		b.WriteString(pieces[rng.IntN(len(pieces))])
 	}
-	if rng.IntN(200) == 0 {
+	if rng.IntN(2000) == 0 {
 		b.WriteString(strings.Repeat("A\x01", 1<<18))
 	}
 	return b.String()
@@ -43,6 +43,11 @@ func TestVerifC37(t *testing.T) {
 		t.Fatal(err)
 	}
 	defer l.Close()
+	rf, err := os.Open(fpath)
+	if err != nil {
+		t.Fatal(err)
+	}
+	defer rf.Close()
 	levels := map[Level]string{Debug: "DEB", Info: "INF", Warn: "WAR", Error: "ERR"}
 	var fileOff int64
 	n := r.N(60000, 2000000)
@@ -64,16 +69,15 @@ func TestVerifC37(t *testing.T) {
 		want := fmt.Sprintf(format, args...)
 		out.Reset()
 		l.Log(level, format, args...)
-		fb, err := os.ReadFile(fpath)
+		st, err := rf.Stat()
 		if err != nil {
 			t.Fatal(err)
 		}
-		fileLine := fb[fileOff:]
-		fileOff = int64(len(fb))
-		if fileOff > 64<<20 {
-			os.Truncate(fpath, 0) //nolint:errcheck
-			fileOff = 0
+		fileLine := make([]byte, st.Size()-fileOff)
+		if _, err = rf.ReadAt(fileLine, fileOff); err != nil {
+			t.Fatal(err)
 		}
+		fileOff = st.Size()
 		class := "plain"
 		switch {
 		case !utf8.ValidString(want):
